@@ -13,6 +13,7 @@ from .framework import Spec
 from .c11 import enc_ch, enc_md, ilist
 
 SCALE = 4
+NANBIG = 10 ** 6      # lattice stand-in for a NaN sample (see nan_cases)
 INF = 10 ** 15          # a threshold of +-INF lattice units stands for +-np.inf on the implementation side
 INT_DTYPES = ['uint8', 'uint16', 'int16', 'int8', 'int32', 'int64']
 FLOAT_DTYPES = ['float32', 'float16']
@@ -78,6 +79,8 @@ class Enc:
         return (np.array(vals, dtype=self.dt or float) / SCALE).reshape(shape)
 
     def decode(self, x):
+        if x != x:
+            return 'nan'
         if self.kind:
             return self.table.get(float(x), 'off-lattice:' + repr(float(x)))
         return int(round(float(x) * (1 if self.int else SCALE)))
@@ -126,7 +129,7 @@ class C17(Spec):
         'sample values and thresholds are integers/4 in the correspondence runs (or a strictly increasing image of that '
         'lattice: neighbouring binary64 numbers / 1 + k*2^-40); the theorems are about an integer-valued criterion',
     ]
-    ASSUMPTIONS = ['batches are 3-D (epoch, 1, time) with at least one sample per epoch; thresholds are numbers or +-inf (no NaN)']
+    ASSUMPTIONS = ['batches are 3-D (epoch, 1, time) with at least one sample per epoch; thresholds are numbers or +-inf; NaN samples / a NaN threshold are represented in the integer model by a sample above every threshold / a threshold below every criterion (case kind nan)']
     RULE = ('one coroutine per case: criterion x constant/callable threshold x 1-4 batches, each plain or annotated, '
             '0-5 epochs of 1-4 samples on the lattice {0, ±1/4 … ±2, ±th, ±(th ± 1/4)}; refused shapes (2 channels, '
             '2-D, 1-D, 4-D plain) interleaved; quick additionally enumerates every single batch of <= 2 epochs x 2 samples over '
@@ -183,6 +186,50 @@ class C17(Spec):
             yield c
         for c in self.hardening_cases(rng, tier):
             yield c
+        for c in self.nan_cases(rng, tier):
+            yield c
+
+    def nan_cases(self, rng, tier):
+        """Not-a-number samples (a dropped-sample filler) and a NaN threshold. The statement: forwarded are PRECISELY the
+        epochs whose criterion is strictly below the threshold -- a NaN criterion is not below anything and nothing is below
+        a NaN threshold, so such epochs are rejected. In the integer model a NaN sample is represented by a sample above
+        every threshold (+-NANBIG, alternating inside an epoch so that the peak-to-peak amplitude is large too) and a NaN
+        threshold by -1 (no criterion is below it); the real arrays carry real NaNs."""
+        n = 600 if tier == 'quick' else 12000
+        for _ in range(n):
+            c = self.rand_sequence(rng, bad_p=0.0, old_dtypes=False)
+            c['kind'] = 'nan'
+            thnan = rng.random() < 0.25
+            any_nan = False
+            for b in c['batches']:
+                b.pop('route', None)
+                ne, _, nt = b['shape']
+                if b['annot']:
+                    b['ch'] = ['c0']
+                if c['mode'] == 'amp' and nt < 2:
+                    continue
+                pos = []
+                for e in range(ne):
+                    if rng.random() < 0.5:
+                        k = rng.randint(1, nt)
+                        pos.extend(sorted(rng.sample(range(e * nt, (e + 1) * nt), k)))
+                sign = {}
+                for i in pos:
+                    e = i // nt
+                    sign[e] = -sign.get(e, -1)
+                    b['vals'][i] = NANBIG * sign[e]
+                if pos:
+                    b['nan'] = pos
+                    any_nan = True
+                if rng.random() < 0.3:
+                    b['layout'] = rng.choice(['F', 'strided', 'rev', 'epochstride'])
+            if thnan:
+                for b in (c['batches'] if not c['callable'] else [b for b in c['batches'] if rng.random() < 0.6]):
+                    b['th'] = -1
+                    b['thnan'] = True
+                any_nan = any_nan or any(b.get('thnan') for b in c['batches'])
+            if any_nan:
+                yield c
 
     def base_cases(self, rng, tier):
         import itertools
@@ -358,7 +405,11 @@ class C17(Spec):
     # ---- implementation side ---------------------------------------------------
     @staticmethod
     def build(P, b, enc):
-        data = relayout(enc.array(b['vals'], b['shape']), b.get('layout'))
+        data = enc.array(b['vals'], b['shape'])
+        if b.get('nan'):
+            data = data.astype(float)
+            data.reshape(-1)[b['nan']] = np.nan
+        data = relayout(data, b.get('layout'))
         if not b['annot']:
             return data
         md = [{'i': v} for v in b['md']] if isinstance(b['md'], list) else {'i': b['md']}
@@ -412,7 +463,7 @@ class C17(Spec):
             def __init__(co, mode, call, ths, kw=False, nocb=False):
                 co.cur = [None]
                 co.got, co.status = [], []
-                first = th_repr(enc.threshold(ths[0]), res[0][0].get('threp'))
+                first = float('nan') if res[0][0].get('thnan') else th_repr(enc.threshold(ths[0]), res[0][0].get('threp'))
                 th = (lambda: co.cur[0]) if call else first
                 cb = None if nocb else co.status.append
                 if kw:
@@ -423,7 +474,7 @@ class C17(Spec):
 
             def send(co, b, data, th):
                 """-> (error class | None, mask | None, forwarded | None)"""
-                co.cur[0] = th_repr(enc.threshold(th), b.get('threp')) if co.call else co.first
+                co.cur[0] = (float('nan') if b.get('thnan') else th_repr(enc.threshold(th), b.get('threp'))) if co.call else co.first
                 del co.got[:], co.status[:]
                 try:
                     co.co.send(data)
